@@ -26,6 +26,7 @@ type PermNode struct {
 	ACL      *pb.Acl        // the ACL definition of this account/method
 	Status   ValidateStatus // the ACL validation status of this node
 	Children []*PermNode    // the children of this node, usually are ACL members of account/method
+	Signed   bool           // a signer uri ends at this node, so the signature of this name has been verified
 }
 
 // NewPermNode return a default PermNode
@@ -121,6 +122,10 @@ func buildPermTree(root *PermNode, aclMgr base.AclManager,
 			newNode := NewPermNode(akname, accountACL)
 			pnode.Children = append(pnode.Children, newNode)
 			pnode = newNode
+		}
+		// only the last name of a uri has its signature verified
+		if pnode != root {
+			pnode.Signed = true
 		}
 	}
 	return root, nil
